@@ -393,7 +393,11 @@ impl<'a> Sim<'a> {
         let mut world = self.world.borrow_mut();
         let ip = world.lookup(addr);
         let host = world.hosts.get(&ip).expect("missing host");
-        (host.udp.verif_bind_count(), host.tcp.verif_bind_count(), host.tcp.stream_count())
+        (
+            host.udp.verif_bind_count(),
+            host.tcp.verif_bind_count(),
+            host.tcp.stream_count(),
+        )
     }
 
     pub fn run(&mut self) -> Result {
